@@ -4,9 +4,10 @@
   θ = ‖w‖) this is log(exp(w)) = w on that range.
 -/
 import SmVerif.Props.C03
+import SmVerif.Props.SE3Log
 
 namespace SmVerif.Props.LogExp
-open SmVerif SmVerif.Spec SmVerif.Bridge
+open SmVerif SmVerif.Spec SmVerif.Bridge SmVerif.Props.SE3Log
 set_option linter.unusedSectionVars false
 set_option linter.unusedTactic false
 set_option linter.unreachableTactic false
@@ -64,5 +65,57 @@ theorem log_exp_SO3_acute (hS : P.Sqrt) (w : Vec 3 R) (M : Mat 3 3 R) (hM : Gen.
   rcases log_of_rodM P hS (fun i => w i / n) n ha hpos hc hinv L hL with h0 | h0
   · left; exact h0
   · right; funext i; rw [h0 i]; field_simp
+
+/-- **log(exp(S)) = S on SE(3)** for a twist S = (v, w) on the rotational path of `trexp` with cos‖w‖ ≥ 0, sin‖w‖ > 0 (outside the
+    identity bands of the logarithm), given that atan2 inverts (cos, sin) at ‖w‖ and the half-angle tangent law -/
+theorem log_exp_SE3_acute (hS : P.Sqrt) (hTan : TanLaw P) (S : Vec 6 R) (T : Mat 4 4 R) (hT : Gen.trexp_6 P S = .ok T)
+    (hw : ¬ (P.sqrt (S 3 * S 3 + S 4 * S 4 + S 5 * S 5) < 5 / 2251799813685248))
+    (hpos : 0 < P.sin (P.sqrt (S 3 * S 3 + S 4 * S 4 + S 5 * S 5))) (hc : 0 ≤ P.cos (P.sqrt (S 3 * S 3 + S 4 * S 4 + S 5 * S 5)))
+    (hinv : P.atan2 (P.sin (P.sqrt (S 3 * S 3 + S 4 * S 4 + S 5 * S 5))) (P.cos (P.sqrt (S 3 * S 3 + S 4 * S 4 + S 5 * S 5))) = P.sqrt (S 3 * S 3 + S 4 * S 4 + S 5 * S 5))
+    (S' : Vec 6 R) (hL : Gen.trlog_T_twist P T = .ok S') :
+    S' = v6 0 0 0 0 0 0 ∨ S' = v6 (T 0 3) (T 1 3) (T 2 3) 0 0 0 ∨ (S' 3 = 0 ∧ S' 4 = 0 ∧ S' 5 = 0) ∨ S' = S := by
+  have hTv := trexp_6_rot P hS S T hT hw
+  set n := P.sqrt (S 3 * S 3 + S 4 * S 4 + S 5 * S 5) with hn_def
+  have hn0 : 0 < n := lt_of_lt_of_le (by norm_num) (not_lt.mp hw)
+  have hne : n ≠ 0 := ne_of_gt hn0
+  have hnn : S 3 * S 3 + S 4 * S 4 + S 5 * S 5 = n * n := by
+    have := hS.mul_self (S 3 * S 3 + S 4 * S 4 + S 5 * S 5) (sq3_nonneg' (S 3) (S 4) (S 5))
+    rw [← hn_def] at this; exact this.symm
+  have ha : (fun i => v3 (S 3) (S 4) (S 5) i / n) 0 ^ 2 + (fun i => v3 (S 3) (S 4) (S 5) i / n) 1 ^ 2 + (fun i => v3 (S 3) (S 4) (S 5) i / n) 2 ^ 2 = 1 := by
+    simp only [v3_0, v3_1, v3_2]; field_simp; linear_combination hnn
+  -- rotation block and translation of T
+  have hrot : rotOf3 T = rodM (fun i => v3 (S 3) (S 4) (S 5) i / n) (P.cos n) (P.sin n) := by
+    rw [hTv]; funext i j; fin_cases i <;> fin_cases j <;> simp [screwExp, rt3, rotOf3]
+  have htr : (v3 (T 0 3) (T 1 3) (T 2 3) : Vec 3 R) = Gmap ((1 - P.cos n) / (n * n)) ((n - P.sin n) / (n * n * n)) (v3 (S 3) (S 4) (S 5)) (v3 (S 0) (S 1) (S 2)) := by
+    rw [← Vmat_eq_Gmap _ _ _ _ _ hne, hTv]; funext i; fin_cases i <;> simp [screwExp, rt3]
+  rcases trlog_T_rot_eq P T S' hL with h0 | h0 | hR
+  · left; exact h0
+  · right; left; exact h0
+  rcases trlog_T_translation_value P T S' hL with g0 | g0 | hv
+  · left; exact g0
+  · right; left; exact g0
+  right; right
+  rw [hrot] at hR
+  rcases log_of_rodM P hS _ n ha hpos hc hinv _ hR with hz | hLw
+  · left
+    have z0 := congrFun hz 0; have z1 := congrFun hz 1; have z2 := congrFun hz 2
+    simp only [v3_0, v3_1, v3_2] at z0 z1 z2
+    exact ⟨z0, z1, z2⟩
+  right
+  have w0 := hLw 0; have w1 := hLw 1; have w2 := hLw 2
+  simp only [v3_0, v3_1, v3_2] at w0 w1 w2
+  have e3 : S' 3 = S 3 := by rw [w0]; field_simp
+  have e4 : S' 4 = S 4 := by rw [w1]; field_simp
+  have e5 : S' 5 = S 5 := by rw [w2]; field_simp
+  rw [e3, e4, e5, ← hn_def, htr] at hv
+  obtain ⟨t1, t2⟩ := hTan n
+  have hTn : P.tan (n / 2) ≠ 0 := by
+    intro e; rw [e] at t1; linarith
+  obtain ⟨c1, c2⟩ := log_coeffs n (P.sin n) (P.cos n) (P.tan (n / 2)) hne hTn t1 t2
+  have hG := Ginv_G (v3 (S 3) (S 4) (S 5)) (v3 (S 0) (S 1) (S 2)) _ _ _ (n * n) (by simp only [v3_0, v3_1, v3_2]; exact hnn.symm) c1 c2
+  rw [hG] at hv
+  have v0 := congrFun hv 0; have v1 := congrFun hv 1; have v2 := congrFun hv 2
+  simp only [v3_0, v3_1, v3_2] at v0 v1 v2
+  funext i; fin_cases i <;> simp [v0, v1, v2, e3, e4, e5]
 
 end SmVerif.Props.LogExp
